@@ -319,3 +319,30 @@ VARIANTS += [
     dict(prop="C13", name="close-without-is-last", expect="GUARD-count|close-at-last",
          edits=[dict(file=GSF, find="        if self.total_records.is_last(record_id) {\n            self.ordering_tx.close(i + 1).await;\n        }", replace="        if usize::from(record_id) + 2 >= self.total_records.count().unwrap_or(usize::MAX) {\n            self.ordering_tx.close(i + 1).await;\n        }")]),
 ]
+
+DZV = "ipa-core/src/protocol/context/dzkp_validator.rs"
+CZF = "ipa-core/src/protocol/basics/check_zero.rs"
+VARIANTS += [
+    # ---------------- verdict path (C02/C03) ----------------
+    dict(prop="C02", name="batch-validate-verdict-discarded", expect="PATH-verdict|Batch::validate:returns-verify",
+         edits=[dict(file=DZV, find="                &challenges_for_right_prover,\n            )\n            .await\n    }\n}\n\n/// Validator Trait for DZKPs", replace="                &challenges_for_right_prover,\n            )\n            .await\n            .ok();\n        Ok(())\n    }\n}\n\n/// Validator Trait for DZKPs")]),
+    dict(prop="C03", name="batch-validate-skips-small-batches", expect="PATH-verdict|Batch::validate:ok-only-if-empty-or-verified",
+         edits=[dict(file=DZV, find="        if self.is_empty() {\n            return Ok(());\n        }\n\n        let (\n            my_batch_left_shares,", replace="        if self.is_empty() || self.get_number_of_multiplications() < 8 {\n            return Ok(());\n        }\n\n        let (\n            my_batch_left_shares,")]),
+    dict(prop="C02", name="validate-indexed-swallows-error", expect="PATH-verdict|validate_indexed:returns-batch-validate",
+         edits=[dict(file=DZV, find="            .validate(validate_ctx, batch_index)\n            .await\n    }\n\n    /// `is_verified` checks", replace="            .validate(validate_ctx, batch_index)\n            .await\n            .or(Ok(()))\n    }\n\n    /// `is_verified` checks")]),
+    dict(prop="C02", name="check-zero-always-true", expect="PATH-verdict|check_zero:verdict",
+         edits=[dict(file=CZF, find="    Ok(rv.ct_eq(&F::ZERO).into())", replace="    let _: bool = rv.ct_eq(&F::ZERO).into();\n    Ok(true)")]),
+    dict(prop="C02", name="check-zero-unmasked", expect="PATH-verdict|check_zero:masks-with-random-r",
+         edits=[dict(file=CZF, find="semi_honest_multiply(ctx.narrow(&Step::MultiplyWithR), record_id, &r_sharing, v).await?;", replace="semi_honest_multiply(ctx.narrow(&Step::MultiplyWithR), record_id, v, v).await?;")]),
+    dict(prop="C02", name="batch-validate-benign-let", benign=True,
+         edits=[dict(file=DZV, find="                &challenges_for_right_prover,\n            )\n            .await\n    }\n}\n\n/// Validator Trait for DZKPs", replace="                &challenges_for_right_prover,\n            )\n            .await?;\n        Ok(())\n    }\n}\n\n/// Validator Trait for DZKPs")]),
+]
+
+VARIANTS += [
+    dict(prop="C10", name="aad-site-lowercased", expect="FIELDS-aad|HybridConversionInfo.conversion_site_domain:verbatim",
+         edits=[dict(file=HIF, find="HELPER_ORIGIN.as_bytes());\n        r.extend_from_slice(self.conversion_site_domain.as_bytes());", replace="HELPER_ORIGIN.as_bytes());\n        r.extend_from_slice(self.conversion_site_domain.to_ascii_lowercase().as_bytes());")]),
+    dict(prop="C10", name="aad-timestamp-truncated", expect="FIELDS-aad|HybridConversionInfo.timestamp:verbatim",
+         edits=[dict(file=HIF, find="(self.conversion_site_domain.as_bytes());\n\n        r.push(self.key_id);\n        r.extend_from_slice(&self.timestamp.to_be_bytes());", replace="(self.conversion_site_domain.as_bytes());\n\n        r.push(self.key_id);\n        r.extend_from_slice(&(self.timestamp >> 8 << 8).to_be_bytes());")]),
+    dict(prop="C10", name="aad-site-via-as-str", benign=True,
+         edits=[dict(file=HIF, find="HELPER_ORIGIN.as_bytes());\n        r.extend_from_slice(self.conversion_site_domain.as_bytes());", replace="HELPER_ORIGIN.as_bytes());\n        r.extend_from_slice(self.conversion_site_domain.as_str().as_bytes());")]),
+]
